@@ -588,7 +588,9 @@ class ReverseWeighting(WeightingModel):
             self.subscorer = subscorer
 
         def supports_block_quality(self):
-            return self.subscorer.supports_block_quality()
+            # Negating a score turns the sub-scorer's upper bounds into lower
+            # bounds, so they cannot be used for block quality optimizations
+            return False
 
         def score(self, matcher):
             return 0 - self.subscorer.score(matcher)
